@@ -141,9 +141,9 @@ fn run_xo(xo: Xo, fl: Flavour, len: usize, draws: u64, seed: u64, rep: &mut Repo
     // coverage: every segment can occur
     if xo == Xo::TwoPoint && len <= 6 {
         let mut missing = Vec::new();
-        if !segments.contains(&None) {
-            missing.push("empty exchange".to_string());
-        }
+        // the empty exchange (both cut points equal) is recorded but not demanded: the statement
+        // speaks of segments, and a sampler that never leaves the child a pure copy is not wrong
+        rep.count(if segments.contains(&None) { "TwoPoint:empty-exchange-seen" } else { "TwoPoint:empty-exchange-never-seen(not judged)" });
         for i in 0..len {
             for j in i + 1..=len {
                 if !segments.contains(&Some((i, j))) {
@@ -157,6 +157,33 @@ fn run_xo(xo: Xo, fl: Flavour, len: usize, draws: u64, seed: u64, rep: &mut Repo
             rep.violation(sig, || json!({"config": cfg, "draws": draws, "segments_never_seen": missing, "segments_seen": segments.iter().map(|s| format!("{s:?}")).collect::<Vec<_>>()}));
         }
         rep.table_push("segment_coverage", json!({"config": cfg, "draws": draws, "distinct_segments_seen": segments.len(), "possible": len * (len + 1) / 2 + 1}));
+    }
+    if xo == Xo::TwoPoint && len > 6 {
+        // longer genomes: not every segment can be expected within the budget, but the classes
+        // "touches the left end", "touches the right end", "whole genome", "no exchange" and
+        // "strictly inside" have known probabilities under independent uniform cut points; a class
+        // (other than "no exchange", which the statement does not require) is demanded only when
+        // >= 600 such draws are expected under that law, so that any sampler under which the
+        // class is even a tenth as likely still shows it (miss probability < e^-60)
+        let l1 = (len + 1) as f64;
+        let classes: [(&str, f64, Box<dyn Fn(&Option<(usize, usize)>) -> bool>); 5] = [
+            ("a segment touching the left end", 1.0 - (len as f64 / l1).powi(2) - 1.0 / (l1 * l1), Box::new(|s| matches!(s, Some((0, _))))),
+            ("a segment touching the right end", 1.0 - (len as f64 / l1).powi(2) - 1.0 / (l1 * l1), Box::new(move |s| matches!(s, Some((_, e)) if *e == len))),
+            ("the whole genome", 2.0 / (l1 * l1), Box::new(move |s| *s == Some((0, len)))),
+            ("no exchange", 1.0 / l1, Box::new(|s| s.is_none())),
+            ("a segment strictly inside", ((len as f64 - 1.0) / l1).powi(2) - (len as f64 - 1.0) / (l1 * l1), Box::new(move |s| matches!(s, Some((a, e)) if *a > 0 && *e < len))),
+        ];
+        let mut rows = Vec::new();
+        for (what, p, pred) in &classes {
+            let expected = draws as f64 * p;
+            let seen = segments.iter().filter(|s| pred(s)).count();
+            rows.push(json!({"class": what, "expected_draws": expected, "distinct_segments_seen": seen, "demanded": expected >= 600.0 && !what.starts_with("no ")}));
+            if expected >= 600.0 && seen == 0 && !what.starts_with("no ") {
+                let sig = if what.contains("right end") || what.contains("whole") { "C10/TwoPoint/segments-touching-right-end-never-occur" } else { "C10/TwoPoint/segment-never-occurs" };
+                rep.violation(sig, || json!({"config": cfg, "draws": draws, "class_never_seen": what, "expected_number_of_such_draws": expected, "distinct_segments_seen": segments.len()}));
+            }
+        }
+        rep.table_push("segment_class_coverage", json!({"config": cfg, "draws": draws, "distinct_segments_seen": segments.len(), "classes": rows}));
     }
     if xo == Xo::Uniform && len <= 6 {
         // "decides every position independently": every one of the 2^len masks occurs
@@ -172,7 +199,7 @@ fn run_xo(xo: Xo, fl: Flavour, len: usize, draws: u64, seed: u64, rep: &mut Repo
 fn random_parents(seed: u64, rounds: usize, rep: &mut Report) {
     let mut g = vh_core::Xo::derive(seed, "C10-random", 0);
     for r in 0..rounds {
-        let len = g.usize_below(12);
+        let len = if r % 50 == 0 { *g.pick(&[31usize, 32, 33, 63, 64, 65, 100, 127, 128, 129, 255, 256, 257, 1000, 2049]) } else { g.usize_below(12) };
         let a: Vec<bool> = (0..len).map(|_| g.chance(1, 2)).collect();
         let b: Vec<bool> = (0..len).map(|_| g.chance(1, 2)).collect();
         let mut rng = TraceRng::new(mix(seed, r as u64));
@@ -194,8 +221,17 @@ fn random_parents(seed: u64, rounds: usize, rep: &mut Report) {
 }
 
 fn different_lengths(rep: &mut Report) {
+    let mut pairs: Vec<(usize, usize)> = Vec::new();
     for l1 in 0..=5usize {
         for l2 in 0..=5usize {
+            pairs.push((l1, l2));
+        }
+    }
+    for (a, b) in [(63usize, 64usize), (64, 65), (65, 64), (0, 64), (64, 0), (127, 128), (128, 129), (256, 255), (1000, 1001), (1001, 1000), (0, 1000), (1, 1000), (1000, 1), (64, 128), (4096, 4097)] {
+        pairs.push((a, b));
+    }
+    {
+        for (l1, l2) in pairs {
             if l1 == l2 {
                 continue;
             }
@@ -307,7 +343,7 @@ pub fn run(args: &Args) -> i32 {
     let mut configs = Vec::new();
     for xo in [Xo::TwoPoint, Xo::Uniform] {
         for fl in [Flavour::VecArray, Flavour::VecTuple, Flavour::BitArray, Flavour::BitTuple] {
-            for len in [0usize, 1, 2, 3, 4, 5, 6, 7, 8, 64] {
+            for len in [0usize, 1, 2, 3, 4, 5, 6, 7, 8, 9, 15, 16, 17, 31, 32, 33, 63, 64, 65, 127, 128, 129, 257, 1000] {
                 configs.push((xo, fl, len));
             }
         }
@@ -315,7 +351,7 @@ pub fn run(args: &Args) -> i32 {
     let mut rep = run_shards(configs.len(), args.threads, 16 << 20, |i| {
         let mut rep = Report::new();
         let (xo, fl, len) = configs[i];
-        run_xo(xo, fl, len, draws, args.seed, &mut rep);
+        run_xo(xo, fl, len, if len > 8 { (draws * 8 / len as u64).max(draws / 50) } else { draws }, args.seed, &mut rep);
         rep
     });
     // "uniform crossover decides every position independently": at every distance, also
